@@ -58,6 +58,13 @@ def raw_value_access_rule(cg, rep, R):
     return n
 
 
+def view_transform(c):
+    """DataView's index transformation: by name, else the private helper both DataView._read_data and _write_data call"""
+    from .common import private_helper
+    return private_helper(c, "DataView", "_transform_coordinates", [("DataView", "_read_data", "methods"), ("DataView", "_write_data", "methods")],
+                          pick=lambda h: h.cls is not None and h.cls.name == "DataView")
+
+
 def run(M, rep, tier, only=None):
     ctx = Ctx(M, coarse=False)
     ctx.cfg.compose = False
@@ -77,7 +84,7 @@ def run(M, rep, tier, only=None):
     # (composed exploration: callee-internal decisions are merged by outcome, the storage events and their call stacks stay)
     rctx = Ctx(M, sig_mode="full", coarse=False)
     rctx.cfg.sig_keep = lambda e: e.kind in ("layer", "raw")
-    tc = rctx.member("DataView", "_transform_coordinates")
+    tc = view_transform(rctx)
     if tc is not None:
         rctx.cfg.opaque[tc.qual] = ("py", "tuple")      # the index transformation (C06.R2) reads no data
     for cn, name in READ_MEMBERS:
